@@ -100,7 +100,7 @@ class ClientWorld(world.World):
     if op == 'from_resource_name':
       return clients.Study.from_resource_name(self.sname(s)).resource_name.split('/')[-1]
     if op == 'suggest':
-      world.ScriptedPolicy.env = o['env']
+      world.set_env(o['env'])
       return sorted(t.id for t in self.study(s).suggest(count=o['n'], client_id=o['w']))
     if op == 'add_trial':
       t = vz.Trial(parameters={'x': world.PARAMS[o['p']]})
@@ -145,7 +145,7 @@ class ClientWorld(world.World):
       self.trial(s, o['t']).stop()
       return 'Done'
     if op == 'check_early_stopping':
-      world.ScriptedPolicy.env = o['env']
+      world.set_env(o['env'])
       return bool(self.trial(s, o['t']).check_early_stopping())
     if op == 'delete_trial':
       self.trial(s, o['t']).delete()
